@@ -23,6 +23,7 @@ import (
 	"github.com/oxia-db/oxia/server/wal"
 
 	"verif/harness/internal/hx"
+	"verif/harness/internal/kvsafe"
 )
 
 // headConsistent is the specification of "the follower needs no truncation": its head (ft,fo) lies in the
@@ -203,9 +204,9 @@ func runAttach(o *hx.Out, fLog, lLog []ent, t int64) {
 	lWf := &capFactory{inner: wal.NewWalFactory(opts(dir + "/lwal"))}
 	fillWal(fWf.inner, fLog)
 	fillWal(lWf.inner, lLog)
-	fKv, err := kv.NewPebbleKVFactory(&kv.FactoryOptions{DataDir: dir + "/fdb", CacheSizeMB: 1})
+	fKv, err := kvsafe.New(&kv.FactoryOptions{DataDir: dir + "/fdb", CacheSizeMB: 1})
 	hx.Must(err)
-	lKv, err := kv.NewPebbleKVFactory(&kv.FactoryOptions{DataDir: dir + "/ldb", CacheSizeMB: 1})
+	lKv, err := kvsafe.New(&kv.FactoryOptions{DataDir: dir + "/ldb", CacheSizeMB: 1})
 	hx.Must(err)
 	fSd := server.NewShardsDirector(server.Config{}, fWf, fKv, nil)
 	fRpc := server.NewVerifInternalRpc(fSd)
